@@ -45,7 +45,7 @@ class C18(Prop):
         case.state["rec"] = Recorder(case.idx.folder)
         # the constructor's own writes happened before the recorder existed: re-create the index under recording
         case.idx.close()
-        case.idx.open(True, dict(case.config.rules))
+        case.idx.open(True, dict(case.idx.rules))
         case.state["rec"].mark()
         case.state["rules_after"] = [dict(case.led.rules)]
 
@@ -121,7 +121,8 @@ class C18(Prop):
         t = None
         try:
             try:
-                t = Traph(folder=folder, overwrite=False, default_webentity_creation_rule=RULES[default],
+                t = Traph(folder=folder, overwrite=False, encoding=case.config.encoding,
+                          default_webentity_creation_rule=RULES[default],
                           webentity_creation_rules={a: RULES[n] for a, n in rules.items()})
             except TraphException as e:
                 if partial or missing:
